@@ -113,6 +113,9 @@ func vModifiesHeap() {}
 // field of every Host object, "map[net/netip.Addr]" for maps of that type.
 func vModifiesMems(patterns ...string) {}
 
+// vAtEntry (loop invariants only): the value x had when the loop was entered.
+func vAtEntry(x int) int { return x }
+
 // vReveal makes the definitions of the spec_opq_* functions visible in this
 // harness (elsewhere they are uninterpreted, so proofs go by congruence and
 // lemma instances instead of bit-blasting).
